@@ -396,6 +396,8 @@ impl<'a> ReMatcher<'a> {
     }
 
     pub(crate) fn equal_case_blind(&self, a: char, b: char) -> bool {
+        #[cfg(feature = "verif-hooks")]
+        crate::verif::step(crate::verif::site::CASE_BLIND);
         if a == b {
             return true;
         }
